@@ -307,6 +307,9 @@ func classify(c core.Case, out []string) []string {
 	}
 	if g, w, _, _ := c05.QueueGrowth(all); g > 0 {
 		ls = append(ls, "queue:grew")
+		if w >= 2 {
+			ls = append(ls, "queue:grew-wrapped-twice")
+		}
 		if w > 0 {
 			ls = append(ls, "queue:grew-wrapped")
 		}
